@@ -20,7 +20,7 @@ LEVEL = "exploration"
 RULE = (
     "histories (<=30 ops) over one entity with MutableDict(JSON), MutableList(JSON), MutableList(PickleType), MutableSet(PickleType) and a "
     "MutableComposite: every mutating method of dict/list/set incl. slices and in-place operators, whole-value replacement with plain values "
-    "(coercion) and None, interleaved with flush, commit, expire, refresh, rollback, pickle->(mutate detached)->merge and reload in a fresh "
+    "(coercion) and None, interleaved with flush, commit, expire, refresh, rollback, pickle->(mutate detached)->merge / add, pickle->merge(load=False) at once, and reload in a fresh "
     "Session. Non-trivial: >=2 effective in-place mutations separated by a flush/expire/pickle/reload boundary, or a coerced replacement followed "
     "by an in-place mutation; distinct = canonical JSON of the history"
 )
@@ -220,6 +220,12 @@ def check_history(case, ctx):
                     session = Session(eng)
                     detached = True
                     reattach = op[2] if len(op) > 2 else "merge"
+                    if reattach == "merge_noload":
+                        # merge(load=False) accepts only a clean object: re-attach at once; the copy's Mutable values are linked to it by the
+                        # "_sa_event_merge_wo_load" listener alone (no load / refresh event fires on this path)
+                        obj = session.merge(obj, load=False)
+                        detached = False
+                        classes.add("merge-load-false")
                 elif name == "reload":
                     session.commit()
                     flushed = committed = _modelval({k: (v.copy() if hasattr(v, "copy") else v) for k, v in model.items()})
@@ -352,7 +358,7 @@ def _op(draw, excluded=True):
     grp = draw(st.sampled_from(["sess", "sess", "sess", "d", "l", "lp", "s", "pt", "d", "l", "s"]))
     if grp == "sess":
         name = draw(st.sampled_from(SESSION_OPS))
-        return [name, draw(st.integers(2, 5)), draw(st.sampled_from(["merge", "add", "add"]))] if name == "pickle" else [name]
+        return [name, draw(st.integers(2, 5)), draw(st.sampled_from(["merge", "add", "add", "merge_noload"]))] if name == "pickle" else [name]
     if grp == "d":
         name = draw(st.sampled_from(DICT_OPS + ["replace"]))
         if name == "replace":
